@@ -113,6 +113,9 @@ def readers(rng):
                                                                 if rng.random() < 0.5]
 
 
+SLOW_EXIT_RATE = 0.003
+
+
 def gen_seq(rng, depth, budget):
     toks = []
     for _ in range(rng.randint(1, 7 if depth == 0 else 4)):
@@ -120,6 +123,9 @@ def gen_seq(rng, depth, budget):
         if r < 0.22 and depth < 4 and budget[0] > 0:
             budget[0] -= 1
             toks.append("[?" if rng.random() < 0.5 else "[")
+            if rng.random() < SLOW_EXIT_RATE and not budget[1:]:
+                budget.append("slow")            # at most one per case: it costs 2.6 s of real time
+                toks.append("T")
             toks += gen_seq(rng, depth + 1, budget)
             toks.append("]")
             toks += readers(rng)
@@ -175,12 +181,17 @@ def run_impl(line):
     return envimpl.run_case(c, _seed(line))
 
 
+def _no_t(c):
+    """the Lean side does not see `T` steps (a slow exit changes no value)"""
+    return " ".join(t for t in c.split() if t != "T")
+
+
 def model_request(line, impl):
-    return "env " + _concrete.get(line, envimpl.concrete(line)) + " || " + impl
+    return "env " + _no_t(_concrete.get(line, envimpl.concrete(line))) + " || " + impl
 
 
 def spec_line(line):
-    return _concrete.get(line, line)
+    return _no_t(_concrete.get(line, line))
 
 
 _lean = []
@@ -192,7 +203,7 @@ def in_domain(line):
         if not _lean:
             from leanproc import Lean
             _lean.append(Lean())
-        return _lean[0].ask("envwf " + _concrete.get(line, line))
+        return _lean[0].ask("envwf " + " ".join(t for t in _concrete.get(line, line).split() if t != "T"))
     except Exception:
         return "?"
 
